@@ -271,6 +271,11 @@ func c01Case(c *core.C) {
 		maxNodes = 40
 	}
 	doc, shape := gen.SPDXDoc(c.R, c.K, maxNodes)
+	if c.R.Intn(4) == 0 {
+		// the same graph stored differently: several records per source and type, interleaved with other sources'
+		doc.NodeList.Edges = gen.SplitPresentation(c.R, doc.NodeList).Edges
+		c.Cover("edges-split-and-interleaved")
+	}
 	indent := c01Indents[c.K%len(c01Indents)]
 	c.Cover("shape:" + shape)
 	if gen.IsRelatedIDs(doc.NodeList) {
